@@ -16,3 +16,8 @@ Proof. intros H x Hx. rewrite forallb_forall in H. apply H, in_range, Hx. Qed.
 
 Lemma forallb_In {A} (f : A -> bool) l : forallb f l = true -> forall x, In x l -> f x = true.
 Proof. intros H x Hx. rewrite forallb_forall in H. auto. Qed.
+
+Lemma In_firstn {A} (x : A) : forall n l, In x (firstn n l) -> In x l.
+Proof. induction n as [|n IH]; intros [|y l] H; cbn [firstn] in H; try contradiction. destruct H as [<-|H]; [left; reflexivity|right; apply IH, H]. Qed.
+Lemma In_skipn' {A} (x : A) : forall n l, In x (skipn n l) -> In x l.
+Proof. induction n as [|n IH]; intros [|y l] H; cbn [skipn] in H; try assumption; try contradiction. right. apply IH, H. Qed.
